@@ -6,9 +6,11 @@
 // (spec/DomainTrace.tla).
 //
 // Two storage tiers under the repository, both gated at the repository<->storage seam (gstore):
-//   store   one doubles.Store shared by two repository instances (two nodes over one store)
-//   hybrid  two real hybrid.Storage instances (two nodes, each with its own local cache double) over
-//           one shared-cache double and one persistent double; ids come from the hybrid Incr
+//
+//	store   one doubles.Store shared by two repository instances (two nodes over one store)
+//	hybrid  two real hybrid.Storage instances (two nodes, each with its own local cache double) over
+//	        one shared-cache double and one persistent double; ids come from the hybrid Incr
+//
 // What a request is routed to is observed where the proxy hands it to the session manager
 // (SendHTTPProxyRequest(clientID, request with the target URL)): the session manager is a double.
 package main
@@ -196,8 +198,8 @@ func (m *smDouble) GetControlConnectionInterface(clientID int64) httpservice.Con
 	return connStub{}
 }
 func (m *smDouble) BroadcastConfigPush(clientID int64, configBody string) error { return nil }
-func (m *smDouble) GetNodeID() string                                        { return "node-verif" }
-func (m *smDouble) NotifyClientUpdate(clientID int64)                        {}
+func (m *smDouble) GetNodeID() string                                           { return "node-verif" }
+func (m *smDouble) NotifyClientUpdate(clientID int64)                           {}
 func (m *smDouble) RequestTunnelForHTTP(clientID int64, mappingID string, targetURL string, method string) (httpservice.TunnelConnectionInterface, error) {
 	return nil, errors.New("not used")
 }
@@ -440,6 +442,7 @@ func spellingsOf(full string) []spelling {
 	mixed := strings.ToUpper(full[:1]) + full[1:]
 	return []spelling{
 		{"plain", full, full}, {"port", full + ":8080", full}, {"upper", up, full}, {"upper-port", up + ":443", full},
+		spellingFor("upper", full),
 		{"mixed", mixed, full}, {"dot", full + ".", full}, {"dot-port", full + ".:80", full}, {"empty-port", full + ":", full},
 		{"v6", "[::1]", ""}, {"v6-port", "[::1]:8080", ""}, {"v6-full-port", "[2001:db8::1]:443", ""},
 	}
@@ -511,25 +514,45 @@ type step struct {
 	N    string
 	ID   int
 	St   string
+	Sp   string // spelling of the subdomain (Create) / Host header (Lookup)
 }
 
 func parseStep(s string) (step, error) {
 	f := strings.Split(s, "|")
-	if len(f) != 4 && len(f) != 9 {
+	if len(f) != 4 && len(f) != 10 {
 		return step{}, fmt.Errorf("bad step %q", s)
 	}
 	st := step{P: f[0], A: f[1], F: f[2] == "1", R: f[3]}
-	if len(f) == 9 {
-		st.Op, st.C, st.N, st.St = f[4], f[5], f[6], f[8]
+	if len(f) == 10 {
+		st.Op, st.C, st.N, st.St, st.Sp = f[4], f[5], f[6], f[8], f[9]
 		st.ID, _ = strconv.Atoi(f[7])
 	}
 	return st, nil
 }
 
+// spellingFor concretises a spelling class of the model's table for a full domain
+func spellingFor(sp, full string) spelling {
+	switch sp {
+	case "port":
+		return spelling{"port", full + ":8080", full}
+	case "upper":
+		// the spelling under which a subdomain can also be claimed: upper-case label, base domain as configured
+		i := strings.Index(full, ".")
+		return spelling{"upper-sub", strings.ToUpper(full[:i]) + full[i:], full}
+	case "dot":
+		return spelling{"dot", full + ".", full}
+	case "v6":
+		return spelling{"v6", "[::1]", ""}
+	case "v6port":
+		return spelling{"v6-port", "[::1]:8080", ""}
+	}
+	return spelling{"plain", full, full}
+}
+
 type behaviour struct {
-	Kind   string   `json:"kind"` // sched | free | spell
-	Tier   string   `json:"tier"` // store | hybrid
-	API    string   `json:"api"`  // repo | cmd (free / spell behaviours)
+	Kind   string   `json:"kind"`          // sched | free | spell
+	Tier   string   `json:"tier"`          // store | hybrid
+	API    string   `json:"api"`           // repo | cmd (free / spell behaviours)
 	Cmd    []string `json:"cmd,omitempty"` // scheduled behaviours: processes whose calls go through the command handlers
 	Pre    bool     `json:"pre"`
 	Legacy bool     `json:"legacy"` // generated from the model of the unrepaired DeleteMapping
@@ -686,7 +709,10 @@ func drive(env *fw.Env, b fw.Behaviour) *fw.Trace {
 				r.tpSeq++
 				tp := 8000 + r.tpSeq
 				c, sub := cidOf[st.C], subOf[st.N]
-				r.log(fw.Event{"ev": "Call", "p": a.name, "op": "Create", "c": c, "name": fullOf(st.N), "raw": fullOf(st.N), "tp": tp})
+				if st.Sp == "upper" {
+					sub = strings.ToUpper(sub)
+				}
+				r.log(fw.Event{"ev": "Call", "p": a.name, "op": "Create", "c": c, "name": fullOf(st.N), "raw": sub + "." + baseDomain, "tp": tp})
 				fn = func() any { return r.doCreate(n, apiOf(st.P), c, sub, tp) }
 			case "Delete":
 				c, id := cidOf[st.C], fmt.Sprintf("hdm_%d", st.ID)
@@ -699,9 +725,9 @@ func drive(env *fw.Env, b fw.Behaviour) *fw.Trace {
 				r.log(fw.Event{"ev": "Call", "p": a.name, "op": "Update", "id": id, "st": stt})
 				fn = func() any { return r.doUpdate(n, m, stt) }
 			case "Lookup":
-				sp := spelling{"plain", fullOf(st.N), fullOf(st.N)}
-				if i%2 == 1 {
-					sp = spelling{"port", fullOf(st.N) + ":8080", fullOf(st.N)}
+				sp := spellingFor(st.Sp, fullOf(st.N))
+				if st.Sp == "plain" && i%2 == 1 {
+					sp = spellingFor("port", fullOf(st.N)) // same index key in the model's table; vary the concrete spelling
 				}
 				r.log(fw.Event{"ev": "Call", "p": a.name, "op": "Lookup", "host": sp.host, "name": sp.name, "sp": sp.sp})
 				fn = func() any { return r.doLookup(a.name, sp.host) }
@@ -956,12 +982,23 @@ func driveFree(env *fw.Env, beh behaviour) *fw.Trace {
 // ---- jobs ------------------------------------------------------------------------------------------
 
 type mcfg struct {
-	p1, p2, names, kinds                 string
-	maxOps, maxLook, faults, maxLeg      int
-	pre, guess, serial, fix              bool
-	lp                                   string // lookup processes ("" = one)
-	emit                                 bool
-	invs                                 string
+	p1, p2, names, kinds            string
+	maxOps, maxLook, faults, maxLeg int
+	pre, guess, serial, fix         bool
+	spell                           string // "" = {"plain"}
+	nofold                          bool
+	lp                              string // lookup processes ("" = one)
+	emit                            bool
+	invs                            string
+}
+
+const allSpell = `{"plain", "port", "upper", "dot", "v6", "v6port"}`
+
+func spellOf(c mcfg) string {
+	if c.spell == "" {
+		return `{"plain"}`
+	}
+	return c.spell
 }
 
 func lpOf(c mcfg) string {
@@ -985,7 +1022,8 @@ func job(name string, c mcfg) fw.TLCJob {
 	return fw.TLCJob{Name: name, Module: "Domain", Cfg: "Domain.cfg", Workers: 8, Timeout: 14 * time.Minute,
 		Consts: map[string]string{"P1": c.p1, "P2": c.p2, "LP": lpOf(c), "NAMES": c.names, "MAXOPS": strconv.Itoa(c.maxOps),
 			"MAXLOOK": strconv.Itoa(c.maxLook), "KINDS": c.kinds, "PRE": tf(c.pre), "FAULTS": strconv.Itoa(c.faults), "GUESS": tf(c.guess),
-			"HANDLER": `{"p2"}`, "SEQ": tf(c.serial), "MAXLEG": strconv.Itoa(c.maxLeg), "FIX": tf(c.fix), "EMIT": tf(c.emit), "INVS": c.invs}}
+			"HANDLER": `{"p2"}`, "SEQ": tf(c.serial), "MAXLEG": strconv.Itoa(c.maxLeg), "FIX": tf(c.fix), "EMIT": tf(c.emit), "INVS": c.invs,
+			"SPELL": spellOf(c), "FOLD": tf(!c.nofold)}}
 }
 
 const cd = `{"Create", "Delete"}`
@@ -1005,6 +1043,16 @@ func seqCfg(fix, emit bool, kinds string, ops, looks, faults, leg int) mcfg {
 
 func with(c mcfg, invs string) mcfg { c.invs = invs; return c }
 
+// spellCfg: sequential histories over the whole Host / subdomain spelling table
+func spellCfg(fix, emit bool, ops, looks int) mcfg {
+	c := seqCfg(fix, emit, cd, ops, looks, 0, 0)
+	c.spell = allSpell
+	return c
+}
+
+// unrepaired: neither the DeleteMapping repair nor the case-insensitive index key
+func unrepaired(c mcfg, spell string) mcfg { c.fix = false; c.nofold = true; c.spell = spell; return c }
+
 func main() {
 	fw.Main(&fw.Property{
 		ID:        "C19",
@@ -1022,6 +1070,7 @@ func main() {
 				job("mc:conc3x2", with(conc3(true, false, 2, 0, 0), allInvs)),
 				job("mc:conc2:2names", with(conc2(true, false, `{"n1", "n2"}`, 1, 1), allInvs)),
 				job("mc:seq:3ops", with(seqCfg(true, false, cdu, 3, 2, 1, 0), allInvs)),
+				job("mc:spell:3ops", with(spellCfg(true, false, 3, 2), allInvs)),
 			}
 		},
 		GenJobs: func(env *fw.Env) []fw.TLCJob {
@@ -1030,19 +1079,19 @@ func main() {
 			// ones that realise
 			jobs := []fw.TLCJob{
 				job("gen:conc3", with(conc3(true, true, 1, 1, 0), allInvs)),
-				job("gen:conc2f", with(conc2(true, true, `{"n1"}`, 0, 1), allInvs)),
+				job("gen:conc2f", with(conc2(true, true, `{"n1"}`, 1, 1), allInvs)),
 				job("gen:seq", with(seqCfg(true, true, cdu, 2, 2, 0, 1), excusedInvs)),
-				job("legacy:conc3", conc3(false, true, 1, 1, 0)),
+				job("gen:spell", with(spellCfg(true, true, 2, 2), allInvs)),
+				job("legacy:conc3", unrepaired(conc3(false, true, 1, 1, 0), "")),
+				job("legacy:seq", unrepaired(seqCfg(false, true, cd, 2, 1, 1, 0), `{"plain", "upper"}`)),
 			}
 			if env.Tier == "thorough" {
 				jobs = append(jobs,
 					job("gen:conc3f", with(conc3(true, true, 1, 1, 1), allInvs)),
-					job("gen:conc2fl", with(conc2(true, true, `{"n1"}`, 1, 1), allInvs)),
 					job("gen:conc2:2names", with(conc2(true, true, `{"n1", "n2"}`, 1, 0), allInvs)),
 					job("gen:seqleg", with(seqCfg(true, true, cd, 1, 3, 0, 2), excusedInvs)),
 					job("gen:seqf", with(seqCfg(true, true, cdu, 2, 1, 1, 0), allInvs)),
-					job("legacy:conc2f", conc2(false, true, `{"n1"}`, 0, 1)),
-					job("legacy:seq", seqCfg(false, true, cd, 2, 1, 1, 0)))
+					job("legacy:conc2f", unrepaired(conc2(false, true, `{"n1"}`, 1, 1), "")))
 			}
 			return jobs
 		},
@@ -1051,7 +1100,7 @@ func main() {
 			if err := json.Unmarshal(raw, &steps); err != nil {
 				panic(err)
 			}
-			pre := !strings.Contains(src, ":seq")
+			pre := !strings.Contains(src, ":seq") && !strings.Contains(src, ":spell")
 			legacy := strings.HasPrefix(src, "legacy:")
 			var out []json.RawMessage
 			for _, tier := range []string{"store", "hybrid"} {
